@@ -132,7 +132,7 @@ pub fn run_c16(run: &mut Run) -> Stats {
     let tier = run.tier;
     let kmax = tier.pick(3, 4);
     let prop = run.prop.clone();
-    run.rule = format!("absent header; every list of 0..{kmax} elements over distinct codings {{gzip, identity, *, br, deflate, x-gzip}} x every weight in {{none, 0, 0., 0.0, 0.000, 0.001, 0.5, 0.999, 1, 1., 1.000}} per element x 5 whitespace styles (',' / ', ' / ' ; ' / tabs / ' , '), compared with an independent evaluator of RFC 7231 5.3.4 written from the statement (qualities as integers in thousandths, identity default = least-preferred acceptable); lists of up to 42 distinct codings with the deciding elements first and last; lists with a repeated coding, and every byte string of length <= n over {{g z * ; q = 0 1 . , SP 0xFF}} and every weight string of length <= 6 over {{0 1 9 .}}: no panic (and agreement wherever the evaluator has a verdict). non-trivial = distinct header values with a verdict from the evaluator");
+    run.rule = format!("absent header; every list of 0..{kmax} elements over distinct codings {{gzip, identity, *, br, deflate, x-gzip}} x every weight in {{none, 0, 0., 0.0, 0.000, 0.001, 0.5, 0.999, 1, 1., 1.000}} per element x 5 whitespace styles (',' / ', ' / ' ; ' / tabs / ' , '), compared with an independent evaluator of RFC 7231 5.3.4 written from the statement (qualities as integers in thousandths, identity default = least-preferred acceptable); lists of up to 42 distinct codings with the deciding elements first and last; lists with a repeated coding, and every string of <= n symbols over {{g z * ; q = 0 1 . , SP 0xFF U+00E9 U+20AC (UTF-8)}} and every weight string of length <= 6 over {{0 1 9 .}}: no panic (and agreement wherever the evaluator has a verdict). non-trivial = distinct header values with a verdict from the evaluator");
     let mut outer: Vec<Vec<usize>> = Vec::new();
     for k in 0..=kmax {
         outer.extend(lists_k(k));
@@ -236,13 +236,16 @@ pub fn run_c16(run: &mut Run) -> Stats {
     }
     total.merge(st);
     // arbitrary short strings
-    let alpha = [b'g', b'z', b'*', b';', b'q', b'=', b'0', b'1', b'.', b',', b' ', 0xffu8];
+    // symbols, not bytes: the two multi-byte symbols are well-formed UTF-8 characters (a value that
+    // is valid UTF-8 but not ASCII takes other paths through str-based parsing than a stray 0xFF)
+    let alpha: [&[u8]; 14] = [b"g", b"z", b"*", b";", b"q", b"=", b"0", b"1", b".", b",", b" ", b"\xff", b"\xc3\xa9", b"\xe2\x82\xac"];
+    let na = alpha.len() as u64;
     let maxlen = tier.pick(5, 7);
     let mut nstr = 0u64;
     for l in 0..=maxlen {
-        nstr += 12u64.pow(l);
+        nstr += na.pow(l);
     }
-    run.extra.insert("arbitrary_strings".into(), json!({"alphabet": 12, "max_len": maxlen, "count": nstr}));
+    run.extra.insert("arbitrary_strings".into(), json!({"alphabet_symbols": na, "max_len_in_symbols": maxlen, "count": nstr}));
     let st2 = par_for(nstr, threads(), |i, st| {
         let mut x = i;
         let mut k = 0u32;
@@ -250,15 +253,13 @@ pub fn run_c16(run: &mut Run) -> Stats {
         while x >= block {
             x -= block;
             k += 1;
-            block = 12u64.pow(k);
+            block = na.pow(k);
         }
-        let v: Vec<u8> = (0..k)
-            .map(|_| {
-                let c = alpha[(x % 12) as usize];
-                x /= 12;
-                c
-            })
-            .collect();
+        let mut v: Vec<u8> = Vec::new();
+        for _ in 0..k {
+            v.extend_from_slice(alpha[(x % na) as usize]);
+            x /= na;
+        }
         judge(Some(&v), st, (1 << 52) + i, &prop);
         // the same string as a weight and as a second element
         let mut h = b"gzip;q=0.5, ".to_vec();
@@ -332,13 +333,22 @@ pub fn c17_values(tier: Tier) -> Vec<Option<String>> {
     v
 }
 
+/// Writer histories of C17, passed in the `payload_len` slot: a plain number n means
+/// `write_all(n); flush; drop`; the codes below name histories of another shape.
+pub const H_DROP_ONLY: usize = 1_000_001; // drop without a single write or flush
+pub const H_FLUSH_ONLY: usize = 1_000_002; // flush; drop
+pub const H_NO_FLUSH: usize = 1_000_003; // write_all(300); drop
+pub const H_SHORT_LONG_SHORT: usize = 1_000_004; // write(6); write_all(3000); write_all(7); drop
+pub const H_MANY_SMALL: usize = 1_000_005; // 40 x write_all(17); flush; write_all(1); drop
+pub const C17_HISTORIES: [usize; 7] = [0, 300, H_DROP_ONLY, H_FLUSH_ONLY, H_NO_FLUSH, H_SHORT_LONG_SHORT, H_MANY_SMALL];
+
 pub fn c17_case(ae: &Option<String>, level: u32, chunk: usize, method: &str, as_parts: bool, payload_len: usize, out: &mut Vec<Finding>) -> Option<String> {
     c17_case_calls(ae, level, chunk, method, as_parts, payload_len, &[], out)
 }
 
 #[allow(clippy::too_many_arguments)]
 pub fn c17_case_calls(ae: &Option<String>, level: u32, chunk: usize, method: &str, as_parts: bool, payload_len: usize, pre: &[Option<u32>], out: &mut Vec<Finding>) -> Option<String> {
-    let cfg = Config { chunk, level, accept: ae.clone(), payload: Payload::Rand };
+    let cfg = Config { chunk, level, accept: ae.clone(), payload: Payload::Rand, fresh_wakers: false };
     let mut x = match Exec::new_calls(&cfg, method, as_parts, pre) {
         Ok(x) => x,
         Err(m) => {
@@ -390,9 +400,41 @@ pub fn c17_case_calls(ae: &Option<String>, level: u32, chunk: usize, method: &st
             out.extend(fs);
             return Some(format!("{method}/no-writer"));
         }
-        // W(all); F; DW; drain
-        x.write_op(payload_len, true);
-        x.flush_op();
+        // the writer history (see `C17_HISTORIES`), then drain
+        let payload_len = match payload_len {
+            H_DROP_ONLY => 0,
+            H_FLUSH_ONLY => {
+                x.flush_op();
+                0
+            }
+            H_NO_FLUSH => {
+                x.write_op(300, true);
+                300
+            }
+            H_SHORT_LONG_SHORT => {
+                // pieces of very different sizes, no flush in between
+                x.write_op(6, false);
+                x.write_op(3000, true);
+                x.write_op(7, true);
+                x.accepted.len()
+            }
+            H_MANY_SMALL => {
+                for _ in 0..40 {
+                    x.write_op(17, true);
+                }
+                x.flush_op();
+                x.write_op(1, true);
+                x.accepted.len()
+            }
+            n => {
+                // W(all); F
+                x.write_op(n, true);
+                x.flush_op();
+                n
+            }
+        };
+        let _ = payload_len;
+        let payload_len = x.accepted.len();
         x.drop_writer();
         let hz = x.frame_horizon();
         x.poll_until_pending(hz);
@@ -425,7 +467,7 @@ pub fn run_c17(run: &mut Run) -> Stats {
     let tier = run.tier;
     let values = c17_values(tier);
     let prop = run.prop.clone();
-    run.rule = "Accept-Encoding values {absent, empty, every C16 list of <= 2 elements, 20 hand-picked 3-element / malformed values} x gzip level 0..9 x chunk size {1, 7, 4096} x methods {GET, HEAD, POST} x request given as http::Request and as http::request::Parts x history write_all(payload); flush; drop x payloads {empty, 300 bytes}. Oracle: Vary names accept-encoding; Content-Encoding: gzip iff (independent evaluator prefers gzip) and level > 0, never another coding; body sniffed by the independent decoder: says gzip <=> exactly one gzip member of the payload, otherwise the payload verbatim; both request representations give identical headers; HEAD: same headers, no writer. non-trivial = distinct (Accept-Encoding, level, chunk, method, representation, payload)".into();
+    run.rule = "Accept-Encoding values {absent, empty, every C16 list of <= 2 elements, 20 hand-picked 3-element / malformed values} x gzip level 0..9 x chunk size {1, 7, 4096} x methods {GET, HEAD, POST} x request given as http::Request and as http::request::Parts x writer histories {write_all(n); flush; drop for n in {0, 300}; drop only; flush, drop; write_all(300), drop; write(6), write_all(3000), write_all(7), drop; 40 x write_all(17), flush, write_all(1), drop} (the last five at levels 0, 1, 6, 9). Oracle: Vary names accept-encoding; Content-Encoding: gzip iff (independent evaluator prefers gzip) and level > 0, never another coding; body sniffed by the independent decoder: says gzip <=> exactly one gzip member of the payload, otherwise the payload verbatim; both request representations give identical headers; HEAD: same headers, no writer. non-trivial = distinct (Accept-Encoding, level, chunk, method, representation, payload)".into();
     run.bounds = json!({"accept_encoding_values": values.len(), "levels": 10, "chunk_sizes": [1, 7, 4096], "methods": 3});
     par_for(values.len() as u64, threads(), |i, st| {
         let ae = &values[i as usize];
@@ -434,8 +476,12 @@ pub fn run_c17(run: &mut Run) -> Stats {
             for chunk in [1usize, 7, 4096] {
                 let mut get_headers: Option<String> = None;
                 for method in ["GET", "HEAD", "POST"] {
-                    for plen in [0usize, 300] {
+                    for plen in C17_HISTORIES {
                         if method == "HEAD" && plen > 0 {
+                            continue;
+                        }
+                        // the other history shapes: not for every level
+                        if plen > 300 && ![0u32, 1, 6, 9].contains(&level) {
                             continue;
                         }
                         let mut reprs = Vec::new();
